@@ -2,5 +2,6 @@ SPECIFICATION Spec
 CONSTANTS
   MaxDays = 3
   ZoneKinds <- ZK
+  Twin <- TW
 INVARIANT IImpliesP
 INVARIANT RowShape
